@@ -166,7 +166,7 @@ def scen_step(ctx, M):
     # reference
     used[0] = 0
     try:
-        want_state, want = SW.step(pre, meth, clock, arg)
+        want_state, want = SW.step(pre, meth, clock, arg, reads=n_impl)
         illegal = False
     except SW.Illegal:
         illegal = True
@@ -268,7 +268,8 @@ def scen_seq(ctx, M):
             meth = 'leftover' if op == 'leftover-none' else op
             try:
                 ref, _res = SW.step(ref, meth, clock,
-                                    True if op == 'leftover-none' else None)
+                                    True if op == 'leftover-none' else None,
+                                    reads=n_impl)
                 illegal = False
             except SW.Illegal:
                 illegal = True
